@@ -39,6 +39,7 @@ def squawk_spec(bits13):
 
 
 def run_item(item):
+    item.cross_check = True      # thorough tier: discharged obligations are re-decided by cvc5
     pm = load_repo()
     name, prm = item.name, item.params
     n = prm.get("n", 112)
